@@ -33,6 +33,10 @@ def run(rep, kf, tier, seed):
     cr.copy_superset_of_read_obligation(rep, "C20")
     import contracts.resolvers as rs
     rs.discharge(rep, kf, "C20", tier, seed)
+    # a component that is used twice is parsed twice: parsing must leave the document's schema objects as they were
+    import contracts.dispatch as cdp
+    from pyvc import engine_b as _eb
+    _eb.discharge(rep, kf, [cdp.inner_forwarding_contract("ListProperty"), cdp.inner_forwarding_contract("UnionProperty")], "C20", tier, seed)
     from props.common import run_bounded
     run_bounded(rep, kf, "C20", ["body_refs", "reference_strings", "response_refs", "path_order", "schema_order"], tier)
     rep.trusted.extend(["CPython semantics of the supported subset as encoded in pyvc.symexec",
